@@ -91,10 +91,11 @@ impl CosetTable {
     }
 
     fn compact(&self) -> CosetTable {
-        let mut n = 0;
+        let base = self.canon(0);
+        let mut n = 1;
         let mut old_to_new = vec![0; self.len()];
         for k in 0..self.len() {
-            if self.canon(k) == k {
+            if self.canon(k) == k && k != base {
                 old_to_new[k] = n;
                 n += 1;
             }
@@ -198,20 +199,22 @@ fn scan_both_ways(table: &CosetTable, w: &FreeWord, start: usize)
     let n = w.len();
     let (head, i) = scan(table, w, start, n);
     let (tail, j) = scan_inverse(table, w, start, n - i);
-    (head, tail, n - i - j, if i < n { w[i] } else { w[0] })
+    (head, tail, n - i - j, if i < n { w[i] } else if n > 0 { w[0] } else { 0 })
 }
 
 
 fn scan_and_connect(
     table: &mut CosetTable, w: &FreeWord, start: usize
-) {
+) -> bool {
     let (head, tail, gap, c) = scan_both_ways(table, w, start);
 
     if gap == 1 {
         table.join(head, tail, c);
     } else if gap == 0 && head != tail {
         table.merge(head, tail);
+        return true;
     }
+    false
 }
 
 
@@ -237,16 +240,35 @@ pub fn coset_table(
 
                 table.join(i, n, g);
                 for w in &rels {
-                    if w[0] == g {
+                    if w.len() > 0 && w[0] == g {
                         let c = table.canon(i);
                         scan_and_connect(&mut table, w, c);
                     }
                 }
                 for w in subgroup_gens {
-                    let c = table.canon(1);
+                    let c = table.canon(0);
                     scan_and_connect(&mut table, w, c);
                 }
             }
+        }
+    }
+
+    // Deductions are not rescanned above, so all words are checked again on
+    // the complete table until no more rows coincide.
+    loop {
+        let mut merged = false;
+        for i in 0..table.len() {
+            for w in &rels {
+                let c = table.canon(i);
+                merged |= scan_and_connect(&mut table, w, c);
+            }
+        }
+        for w in subgroup_gens {
+            let c = table.canon(0);
+            merged |= scan_and_connect(&mut table, w, c);
+        }
+        if !merged {
+            break;
         }
     }
 
